@@ -99,6 +99,14 @@ def check_pair(ctx, P, t, a, base=None):
                   lambda: {'parse(P)': [m.hex() for m in base], 'parse(P+M)': [m.hex() for m in full],
                            'M': M.hex()})
         ctx.check('fresh objects', len({id(m) for m in full}) == len(full), 'aliased', case, None)
+        # the prefix and the message arrive in separate feed() calls (bytes and list chunks)
+        for cont in (bytes, list):
+            p = Parser()
+            p.feed(cont(P))
+            p.feed(cont(enc))
+            two = list(p)
+            ctx.check('parse(P+enc(M)) == parse(P)+[M]', two == base + [M], f'split-feed:{cont.__name__}:' + t, case,
+                      lambda: {'got': [m.hex() for m in two], 'want': [m.hex() for m in base] + [M.hex()]})
         # poke the results and parse again: still the same
         want = [m.copy() for m in base] + [Message(t, **a)]
         poke(full)
@@ -149,6 +157,16 @@ def check_rt_in_sysex(ctx, data, inserts):
         ctx.check('realtime inside sysex delivered first, sysex intact', got == want, 'rt-in-sysex',
                   case, lambda: {'stream': stream, 'got': [m.hex() for m in got]})
         # and after a garbage prefix / before a following message
+        # the sysex arrives in two feed() calls, cut at every interior position
+        for cut in range(1, len(stream)):
+            for cont in (bytes, list):
+                p = Parser()
+                p.feed(cont(stream[:cut]))
+                p.feed(cont(stream[cut:]))
+                two = list(p)
+                ctx.check('realtime inside sysex delivered first, sysex intact', two == want,
+                          f'rt-in-sysex-split:{cont.__name__}', case,
+                          lambda: {'cut': cut, 'stream': stream, 'got': [m.hex() for m in two]})
         got = mido.parse_all([0x40, 0x90, 1] + stream + [0xC0, 5])
         ctx.check('realtime inside sysex delivered first, sysex intact',
                   got == want + [Message('program_change', program=5)], 'rt-in-sysex-context', case,
